@@ -209,6 +209,7 @@ type partRec struct {
 }
 
 type wRequest struct {
+	Seq     int // position of the request's first event in the event log
 	ID      int
 	Class   string // data | recovery | poll | partials
 	Gen     int
@@ -218,8 +219,10 @@ type wRequest struct {
 	Fault   string
 	Acked   []bool // per part: Receive returned nil
 	At, End time.Duration
-	Names   []string       // poll
-	Codes   map[string]int // poll answers
+	Names   []string          // poll
+	Codes   map[string]int    // poll answers
+	Hashes  map[string]string // poll: hash of the version the sender asks about
+	Sizes   map[string]int64  // poll: bytes the sender had to send for it
 }
 
 type sender struct {
@@ -605,7 +608,7 @@ func (s *sender) transmit(p sts.Payload) (n int, err error) {
 	req := &wRequest{ID: id, Class: "data", Gen: s.gen, Parts: partsOf(p), Fault: f.Kind, At: w.vt()}
 	req.Acked = make([]bool, len(req.Parts))
 	w.addReq(req)
-	w.log.add(wEvent{Kind: "data_req", Req: id, A: int64(len(req.Parts)), S: f.Kind, Gen: s.gen})
+	req.Seq = w.log.add(wEvent{Kind: "data_req", Req: id, A: int64(len(req.Parts)), S: f.Kind, Gen: s.gen})
 	defer func() {
 		req.N = n
 		if err != nil {
@@ -745,6 +748,7 @@ func (s *sender) recoverTx(p sts.Payload) (n int, err error) {
 	s.action("recovertx:call")
 	f, id := w.faultFor("recovery")
 	req := &wRequest{ID: id, Class: "recovery", Gen: s.gen, Parts: partsOf(p), Fault: f.Kind, At: w.vt()}
+	req.Seq = w.log.add(wEvent{Kind: "recovery_req", Req: id, Gen: s.gen})
 	w.addReq(req)
 	defer func() {
 		req.N = n
@@ -798,10 +802,13 @@ func (s *sender) validate(sent []sts.Pollable) (out []sts.Polled, err error) {
 	w := s.w
 	s.action("validate:call")
 	f, id := w.faultFor("poll")
-	req := &wRequest{ID: id, Class: "poll", Gen: s.gen, Fault: f.Kind, At: w.vt(), Codes: map[string]int{}}
+	req := &wRequest{ID: id, Class: "poll", Gen: s.gen, Fault: f.Kind, At: w.vt(), Codes: map[string]int{}, Hashes: map[string]string{}, Sizes: map[string]int64{}}
 	for _, p := range sent {
 		req.Names = append(req.Names, p.GetName())
+		req.Hashes[p.GetName()] = p.GetHash()
+		req.Sizes[p.GetName()] = p.GetSize()
 	}
+	req.Seq = w.log.add(wEvent{Kind: "poll_req", Req: id, A: int64(len(sent)), Gen: s.gen})
 	w.addReq(req)
 	defer func() {
 		if err != nil {
@@ -861,6 +868,7 @@ func (s *sender) recoverReq() (ps []*sts.Partial, err error) {
 	s.action("partials:call")
 	f, id := w.faultFor("partials")
 	req := &wRequest{ID: id, Class: "partials", Gen: s.gen, Fault: f.Kind, At: w.vt()}
+	req.Seq = w.log.add(wEvent{Kind: "partials_req", Req: id, Gen: s.gen})
 	w.addReq(req)
 	defer func() {
 		if err != nil {
